@@ -347,7 +347,7 @@ def write_model(ctx, fam, over=None, inv=None):
     inv = inv or f.get("invariants", ALL_INV)
     open(os.path.join(d, "MC_%s.cfg" % fam), "w").write(
         "SPECIFICATION Spec\nCONSTANTS\n%s\nVIEW View\nCONSTRAINT Bounded\nACTION_CONSTRAINT Emit\n"
-        "CHECK_DEADLOCK FALSE\nINVARIANTS %s\nPROPERTIES ShrinkProps\n" % ("\n".join(cfg), " ".join(inv)))
+        "CHECK_DEADLOCK FALSE\nINVARIANTS %s\nPROPERTIES ShrinkProps CbProps\n" % ("\n".join(cfg), " ".join(inv)))
     return d, consts
 
 
@@ -433,7 +433,7 @@ def run_exec(ctx, seqfile, cfg, outprefix, shards, keep=1000):
         return list(ex.map(one, range(shards)))
 
 
-def run_monitor(ctx, logpath, timeout=900):
+def run_monitor(ctx, logpath, timeout=1800):
     d = os.path.dirname(logpath)
     meta = logpath + ".meta"
     env = dict(os.environ, TRACE_FILE=logpath, JAVA_TOOL_OPTIONS="-XX:ParallelGCThreads=1 -XX:CICompilerCount=2 -Xms1g -Xmx4g -XX:-UseAdaptiveSizePolicy -Xss64m")
@@ -527,7 +527,10 @@ def drive_family(ctx, name, cells, probes, extra_cfg=None):
     os.makedirs(d, exist_ok=True)
     for tl in glob.glob(os.path.join(SPEC, "*.tla")):
         shutil.copy(tl, d)
-    shards = max(1, MON_PAR // max(1, len(cells)))
+    # logs of bounded size (~60k events), so that every monitor run stays short; as many logs as needed
+    per_log = max(1, 60000 // (2 * t["len"] + 40))
+    shards = max(1, min(-(-t["count"] // (per_log * len(cells))), 400))
+    shards = max(shards, min(MON_PAR // max(1, len(cells)), t["count"] // max(1, len(cells))) or 1)
     per = max(1, t["count"] // (shards * len(cells)))
     jobs = []
     for ci, cell in enumerate(cells):
